@@ -66,6 +66,58 @@ def read_enum(dump, name):
     return out
 
 
+def pair_part(viol):
+    """closed and open enums over the SAME values side by side in one object (inline closed enum, inline open wrapper, open
+    wrapper whose string alternative is a $ref, closed component enum): the closed ones reject undeclared strings, the
+    open ones keep them verbatim, in every mode"""
+    S = {"type": "string"}
+    spec = {"openapi": "3.1.0", "info": {"title": "t", "version": "1"}, "paths": {}, "components": {"schemas": {
+        "Level": {"type": "string", "enum": ["low", "high"]}, "FreeText": S,
+        "Holder": {"type": "object", "properties": {
+            "a": {"anyOf": [{"type": "string", "enum": ["on", "off"]}, S]}, "b": {"type": "string", "enum": ["on", "off"]},
+            "k": {"anyOf": [{"type": "string", "enum": ["low", "high"]}, {"$ref": "#/components/schemas/FreeText"}]},
+            "lvl": {"$ref": "#/components/schemas/Level"}, "n": {"anyOf": [{"type": "string", "enum": ["low", "high"]}, S]}, "z": {"type": "string", "enum": ["low", "high"]}}}}}}
+    d = vlib.scratch("C15p")
+    sp = os.path.join(d, "spec.json")
+    json.dump(spec, open(sp, "w"))
+    ar = arena.Arena("C15p")
+    for mi, m in enumerate(MODES):
+        outp = os.path.join(d, f"{m}.rs")
+        rc, txt = vlib.oas(["generate", "types", "-i", sp, "-o", outp, "-q", "--all-schemas", "--no-helpers", "--enum-mode", m])
+        if rc != 0:
+            viol.append((["pair"], f"closed / open enum pairs, mode {m}: generation failed {txt[-200:]}"))
+            return 0
+        ar.add_case(mi, outp)
+    probes = [("a", "on", "on"), ("a", "zzz", "zzz"), ("b", "on", "on"), ("b", "zzz", None), ("b", "", None), ("k", "low", "low"), ("k", "medium", "medium"),
+              ("lvl", "high", "high"), ("lvl", "medium", None), ("n", "medium", "medium"), ("z", "low", "low"), ("z", "medium", None)]
+    lines = []
+    for mi in range(len(MODES)):
+        for k, (f, v, _) in enumerate(probes):
+            lit = json.dumps(json.dumps({f: v}))
+            lines.append(f'{{ let r: Result<case_{mi}::Holder, _> = serde_json::from_str({lit}); match r {{ Ok(h) => println!("{mi}\t{k}\tOK\t{{}}", serde_json::to_string(&h).unwrap()), Err(_) => println!("{mi}\t{k}\tERR") }} }}')
+    ar.write_main("fn main() {\n" + "\n".join(lines) + "\n}\n")
+    ok, diags, err = ar.cargo("build")
+    if not ok:
+        viol.append((["pair"], f"closed / open enum pairs: the emitted types do not compile: {(diags[0]['message'] if diags else err)[:300]}"))
+        return 0
+    rc, so, se = ar.run("")
+    got = {}
+    for l in so.strip().split("\n"):
+        parts = l.split("\t")
+        if len(parts) >= 3:
+            got[(int(parts[0]), int(parts[1]))] = parts[2:]
+    n = 0
+    for mi, m in enumerate(MODES):
+        for k, (f, v, want) in enumerate(probes):
+            n += 1
+            o = got.get((mi, k), ["missing"])
+            back = json.loads(o[1]).get(f) if o[0] == "OK" else None
+            if (want is None and o[0] == "OK") or (want is not None and back != want):
+                kind = "closed" if f in ("b", "lvl", "z") else "open"
+                viol.append((["pair", f, v], f"closed / open enum pairs, mode {m}: member {f} ({kind} over the same values as its neighbour) given {v!r}: {'accepted and written as ' + json.dumps(back) if o[0] == 'OK' else 'rejected'}, expected {'rejection' if want is None else json.dumps(want)}"))
+    return n
+
+
 def main(tier, seed, replay=None):
     res = Result("C15", tier, seed)
     vlib.build_repo()
@@ -266,7 +318,8 @@ fn main() {
                             known_hits.add("relaxed-fallback-swallows-unknown")
                         else:
                             viol.append((vals, f"open-string wrapper mode {m}: {p} decodes/encodes as {got}"))
-    res.counts.update({"evaluations": len(cases) + n_beh, "distinct_nontrivial": len(lists),
+    n_pair = pair_part(viol)
+    res.counts.update({"evaluations": len(cases) + n_beh, "closed_open_pair_probes": n_pair, "distinct_nontrivial": len(lists),
                        "traces_validated_against_impl": len(cases), "compiled_enums": len(sample), "behaviour_probes": n_beh,
                        "rule": "value lists: all lists of up to 3 values over a 10-symbol alphabet (case-only and separator-only differences, digits, empty string, duplicates) sampled in quick / complete in thorough, plus hand lists (non-string values, keywords, braces) x 3 enum modes; emitted enum read back with syn vs the extracted model (names, rename, alias); a sample compiled in the arena and probed with every declared value, its case variants and near misses, against the model's decoder and the property's oracle; plus the anyOf known+open-string wrapper"})
     for vals, m in cases[:2] + cases[-2:]:
